@@ -38,6 +38,9 @@ claimed = {
  "C20": dict(
    text="Lean 4 proof: for every range start<=end<=$FFFF the dump loop (counter width regenerated from the Go source, obligation 17<=bits) terminates after end-start+1 iterations, the lines concatenated are exactly the addresses start..end once in ascending order, every line but the last has 16 entries and line k starts at start+16k (C20_bytes, C20_lines, C20_terminates); a 16-bit counter provably never exits at $FFFF (counterLoop_diverges_16); an accepted specification is digits:digits, in range, non-zero, non-wrapping (C20_spec_form, C20_spec_sound, C20_spec_complete); validation precedes loading (regenerated call-order fact). Tie: exact-text differential of memory.Dump and of the parameter parser through a build-tag hook.",
    technique="Lean 4 loop-termination and coverage proof + regenerated counter width/call order + exact-text differential"),
+ "C13": dict(
+   text="Lean 4 proof: a successful load reports the little-endian header and the payload length and its effect on memory is exactly the stores of payload byte i at (header+i) mod 65536 in order, every one succeeding, nothing else (C13_place, by induction on the payload, any memory model incl. banked ones); files under three bytes rejected with nothing written (C13_short); if the store of any byte faults after its predecessors were stored the load is an error (C13_fault, uses the regenerated fact that Load assigns CopyToMem's error); PreLoad uses the same copy (C13_preload). Tie: regenerated fact + differential of Load/PreloadRoms on all ten machines comparing result and full memory image.",
+   technique="Lean 4 induction over the payload + regenerated error-use fact + differential with full image"),
 }
 
 checks = []
